@@ -70,6 +70,56 @@ class Cv2Proxy:
         return self._real.imwrite(path, img, params)
 
 
+class _TxnProxy:
+    """A write transaction of the LMDB line-crop output: the commit is the write seam (an atomic one,
+    as in LMDB itself); a kill before it means the transaction never happened."""
+
+    def __init__(self, world, env_path, txn, write):
+        self._w, self._path, self._txn, self._write = world, env_path, txn, write
+
+    def __enter__(self):
+        self._txn.__enter__()
+        return self
+
+    def __exit__(self, et, ev, tb):
+        if et is None and self._write:
+            try:
+                self._w.seam_write(os.path.join(self._path, 'txn-commit'))
+            except BaseException:
+                self._txn.abort()
+                raise
+        return self._txn.__exit__(et, ev, tb)
+
+    def __getattr__(self, name):
+        return getattr(self._txn, name)
+
+
+class _EnvProxy:
+    def __init__(self, world, path, env):
+        self._w, self._path, self._env = world, path, env
+
+    def begin(self, *a, **k):
+        write = bool(k.get('write', False))
+        return _TxnProxy(self._w, self._path, self._env.begin(*a, **k), write)
+
+    def __getattr__(self, name):
+        return getattr(self._env, name)
+
+
+class LmdbProxy:
+    """Stands in for the ``lmdb`` module (parse_folder imports it inside LMDB_writer.__init__)."""
+
+    def __init__(self, world, real):
+        self._w, self._real = world, real
+
+    def open(self, path, *a, **k):
+        self._w.log.add(self._w.actor(), 'lmdb-open', self._w.rel(path))
+        return _EnvProxy(self._w, path, self._real.open(path, *a, **k))
+
+    def __getattr__(self, name):
+        return getattr(self._real, name)
+
+
 def make_open(world):
     def sim_open(file, mode='r', *a, **k):
         if isinstance(file, (str, bytes, os.PathLike)) and any(c in mode for c in 'wax+'):
@@ -238,6 +288,19 @@ def snapshot(root):
     for dp, _, fs in os.walk(root):
         for f in fs:
             p = os.path.join(dp, f)
+            if f == 'lock.mdb':
+                continue
+            if f == 'data.mdb':
+                # an LMDB environment: its logical content (key -> value hash), not the page file
+                import lmdb
+                env = lmdb.open(dp, readonly=True, lock=False)
+                try:
+                    with env.begin() as txn:
+                        for key, val in txn.cursor():
+                            snap[os.path.join(os.path.relpath(dp, root), key.decode('utf-8', 'replace'))] = hashlib.sha256(bytes(val)).hexdigest()[:16]
+                finally:
+                    env.close()
+                continue
             snap[os.path.relpath(p, root)] = digest_file(p)
     return snap
 
@@ -352,6 +415,10 @@ class PfWorld:
         pf.Pool = SimPool
         pf.PageParser = MonitoredPageParser
         pf.open = make_open(self)
+        if self.plan.get('lmdb'):
+            import lmdb as real_lmdb
+            saved['lmdb'] = sys.modules.get('lmdb')
+            sys.modules['lmdb'] = LmdbProxy(self, real_lmdb)
         layout.open = make_open(self)
         layout.datetime = kernel.make_fake_datetime(self.clock)
         page_parser.time = ft
@@ -375,6 +442,8 @@ class PfWorld:
                 setattr(layout, k, v)
         page_parser.time = saved['pp_time']
         decoding_itf.construct_lm = saved['construct_lm']
+        if 'lmdb' in saved:
+            sys.modules['lmdb'] = saved['lmdb']
         sys.argv = saved['argv']
         _ACTIVE[0] = None
         self._installed = None
@@ -491,6 +560,8 @@ class PfWorld:
 
     def dirname(self, kind):
         """Output folder of a kind relative to the run's output root (plans may nest or share folders)."""
+        if kind == 'lines' and self.plan.get('lmdb'):
+            return 'lines_lmdb'          # parse_folder switches to the LMDB writer when the path contains 'lmdb'
         return (self.plan.get('folders') or {}).get(kind, kind)
 
     def expected_files(self):
@@ -618,6 +689,9 @@ class PfWorld:
                 restore_ocr[0].run_ocr = restore_ocr[1]
         p.stdout = so.getvalue()
         p.stderr = se.getvalue()
+        if self.plan.get('lmdb'):
+            import gc
+            gc.collect()         # environments of a dead process must not stay open in this interpreter
         if p.crash_at is not None and not p.killed:
             # the kill was scheduled after the last write of this process: everything it wrote is
             # durable, its exit status died with it
